@@ -70,13 +70,14 @@ theorem mem_restrict_succ {ts : TS T D} {S : T → Bool} {n : T} {r : PRel T D} 
     r ∈ (ts.restrict S).succ n ↔ r ∈ ts.succ n ∧ S r.dst = true := by
   simp [TS.restrict, List.mem_filter]
 
-theorem TS.WF.restrict {ts : TS T D} (wf : ts.WF) (S : T → Bool) : (ts.restrict S).WF where
+theorem TS.WF.restrict {ts : TS T D} {I : D → Prop} (wf : ts.WF I) (S : T → Bool) : (ts.restrict S).WF I where
   height := fun n r hr => wf.height n r (mem_restrict_succ.mp hr).1
   idGuard := fun n r hr hi => wf.idGuard n r (mem_restrict_succ.mp hr).1 hi
   nested := fun n r hr hi => wf.nested n r (mem_restrict_succ.mp hr).1 hi
-  mutex := fun n x hc =>
-    Nat.le_trans ((List.Sublist.filter _ List.filter_sublist).length_le) (wf.mutex n x hc)
-  lands := fun n r x hr hc hg => wf.lands n r x (mem_restrict_succ.mp hr).1 hc hg
+  mutex := fun n x hI hc =>
+    Nat.le_trans ((List.Sublist.filter _ List.filter_sublist).length_le) (wf.mutex n x hI hc)
+  lands := fun n r x hr hI hc hg => wf.lands n r x (mem_restrict_succ.mp hr).1 hI hc hg
+  closed := fun n r x hr hI hc hg => wf.closed n r x (mem_restrict_succ.mp hr).1 hI hc hg
 
 theorem idpath_closed {ts : TS T D} {S : T → Bool} (pc : ParentClosed ts S) {a b : T}
     (hp : IdPath ts a b) (hb : S b = true) : S a = true := by
@@ -95,12 +96,13 @@ theorem idpath_restrict {ts : TS T D} {S : T → Bool} (pc : ParentClosed ts S) 
 
 /-- the identity-only system of a well-formed system is well formed (used to apply the
 inference lemmas to detection) -/
-theorem TS.WF.idOnly {ts : TS T D} (wf : ts.WF) : ts.idOnly.WF where
+theorem TS.WF.idOnly {ts : TS T D} {I : D → Prop} (wf : ts.WF I) : ts.idOnly.WF I where
   height := fun n r hr => wf.height n r (mem_idSucc.mp hr).1
   idGuard := fun n r hr hi => wf.idGuard n r (mem_idSucc.mp hr).1 hi
   nested := fun n r hr hi => wf.nested n r (mem_idSucc.mp hr).1 hi
-  mutex := fun n x hc => Nat.le_trans (idSucc_filter_le ts n x) (wf.mutex n x hc)
-  lands := fun n r x hr hc hg => wf.lands n r x (mem_idSucc.mp hr).1 hc hg
+  mutex := fun n x hI hc => Nat.le_trans (idSucc_filter_le ts n x) (wf.mutex n x hI hc)
+  lands := fun n r x hr hI hc hg => wf.lands n r x (mem_idSucc.mp hr).1 hI hc hg
+  closed := fun n r x hr hI hc hg => wf.closed n r x (mem_idSucc.mp hr).1 hI hc hg
 
 /-! ### C01: detection is sound and most specific — needs L0 only -/
 
@@ -224,8 +226,8 @@ theorem pfirst_filter_some {l : List (PRel T D)} {q : PRel T D → Bool} {x : D}
 /-- **Refinement for inference**: the walk of the smaller typeset `A` is a prefix of the walk of
 the larger typeset with the same data along it, and the larger walk continues from where the
 smaller one stopped. -/
-theorem infer_refines (ts : TS T D) (wf : ts.WF) (A : T → Bool) :
-    ∀ f n x, ts.h n < f → ts.contains n x = true →
+theorem infer_refines (ts : TS T D) {I : D → Prop} (wf : ts.WF I) (A : T → Bool) :
+    ∀ f n x, ts.h n < f → I x → ts.contains n x = true →
       let rA := ptraverse (ts.restrict A).succ f n x
       let rB := ptraverse ts.succ f n x
       rA.2 <+: rB.2 ∧
@@ -235,7 +237,7 @@ theorem infer_refines (ts : TS T D) (wf : ts.WF) (A : T → Bool) :
   induction f with
   | zero => intro n x h; omega
   | succ f ih =>
-    intro n x hf hc
+    intro n x hf hI hc
     cases hfa : pfirst ((ts.restrict A).succ n) x with
     | none =>
       simp only [ptraverse, hfa]
@@ -243,12 +245,12 @@ theorem infer_refines (ts : TS T D) (wf : ts.WF) (A : T → Bool) :
       · cases pfirst (ts.succ n) x <;> simp
       · simp [plast]
     | some r =>
-      have hB : pfirst (ts.succ n) x = some r := pfirst_filter_some hfa (wf.mutex n x hc)
+      have hB : pfirst (ts.succ n) x = some r := pfirst_filter_some hfa (wf.mutex n x hI hc)
       have hmem : r ∈ ts.succ n := List.mem_of_find?_eq_some hB
       have hg : r.guard x = true := by have := List.find?_some hB; simpa using this
       have hlt := wf.height n r hmem
-      have hc' := wf.lands n r x hmem hc hg
-      have ⟨ih1, ih2⟩ := ih r.dst (r.xform x) (by omega) hc'
+      have hc' := wf.lands n r x hmem hI hc hg
+      have ⟨ih1, ih2⟩ := ih r.dst (r.xform x) (by omega) (wf.closed n r x hmem hI hc hg) hc'
       simp only [ptraverse, hfa, hB]
       refine ⟨by simpa using ih1, ?_⟩
       rw [plast_cons_of_ne_nil _ _ _ (ptraverse_path_ne_nil _ _ _ _)]
@@ -279,8 +281,8 @@ variable {T D : Type}
 /-- **Refinement for detection**: the detection path of the smaller parent-closed typeset `A`
 is a prefix of that of the larger one, consists of members of `A`, and no later type on the
 larger path belongs to `A` — so `detect_A(x)` is the deepest type of `B`'s path that lies in `A`. -/
-theorem detect_refines (ts : TS T D) (wf : ts.WF) (A : T → Bool) (pc : ParentClosed ts A) :
-    ∀ f n x, ts.h n < f → ts.contains n x = true → A n = true →
+theorem detect_refines (ts : TS T D) {I : D → Prop} (wf : ts.WF I) (A : T → Bool) (pc : ParentClosed ts A) :
+    ∀ f n x, ts.h n < f → I x → ts.contains n x = true → A n = true →
       let pA := (ptraverse (ts.restrict A).idSucc f n x).2
       let pB := (ptraverse ts.idSucc f n x).2
       pA <+: pB ∧ (∀ t ∈ pB, A t = true → t ∈ pA) ∧ (∀ t ∈ pA, A t = true) := by
@@ -288,7 +290,7 @@ theorem detect_refines (ts : TS T D) (wf : ts.WF) (A : T → Bool) (pc : ParentC
   induction f with
   | zero => intro n x h; omega
   | succ f ih =>
-    intro n x hf hc hn
+    intro n x hf hI hc hn
     have wfi := wf.idOnly
     cases hfa : pfirst ((ts.restrict A).idSucc n) x with
     | none =>
@@ -317,14 +319,14 @@ theorem detect_refines (ts : TS T D) (wf : ts.WF) (A : T → Bool) (pc : ParentC
       have hfa' : pfirst ((ts.idSucc n).filter (fun r => A r.dst)) x = some r := by
         rw [← restrict_idSucc]; exact hfa
       have hB : pfirst (ts.idSucc n) x = some r :=
-        pfirst_filter_some hfa' (wfi.mutex n x hc)
+        pfirst_filter_some hfa' (wfi.mutex n x hI hc)
       have hmemA : r ∈ (ts.idSucc n).filter (fun r => A r.dst) := List.mem_of_find?_eq_some hfa'
       have hAr : A r.dst = true := by have := (List.mem_filter.mp hmemA).2; simpa using this
       have hmem : r ∈ ts.idSucc n := List.mem_of_find?_eq_some hB
       have hg : r.guard x = true := by have := List.find?_some hB; simpa using this
       have hlt := wf.height n r (mem_idSucc.mp hmem).1
-      have hc' := wfi.lands n r x hmem hc hg
-      have ⟨ih1, ih2, ih3⟩ := ih r.dst (r.xform x) (by omega) hc' hAr
+      have hc' := wfi.lands n r x hmem hI hc hg
+      have ⟨ih1, ih2, ih3⟩ := ih r.dst (r.xform x) (by omega) (wfi.closed n r x hmem hI hc hg) hc' hAr
       simp only [ptraverse, hfa, hB]
       refine ⟨by simpa using ih1, ?_, ?_⟩
       · intro t ht hAt
